@@ -5,7 +5,7 @@ import datetime as dt
 ZCH = "0123456789ABCDEFGHJKLMNPRTUVWXYZabcdefhkmnorstuvwxz"
 PLAIN = ["foo", "bar", "Baz_1", "x1", "UPPER", "snake_case", "note", "a1b2", "0x1f", "42", "7days", "oo", "xx", "Px", "P10"]
 LOOKALIKE = ["240101", "991231", "240101a", "12345", "1234567"]       # ID tokens that resemble identity words
-NAMES = ["sh1", "sh2", "Sh3", "t", "tag_x", "Z9", "home", "work"]
+NAMES = ["sh1", "sh2", "Sh3", "t", "tag_x", "Z9", "home", "work", "1_000", "2024_05", "3_1"]       # digits joined by _ are names, not numbers
 RULERS = ["################################", "========================", "++++++++++++++++", "--------"]
 
 
